@@ -225,7 +225,7 @@ func (g *projGen) perturb(m *pMethod, structNames []string) string {
 		}
 	}
 	kinds := []string{"add-unbound-param", "add-url-param", "results-none", "results-three", "results-nonerror", "verb-invalid", "verb-unsupported", "unknown-annotation", "bad-status",
-		"verb-case", "dup-path-alias", "swap-path-alias", "prefix-url-param", "alias-steals-variable"}
+		"verb-case", "dup-path-alias", "swap-path-alias", "prefix-url-param", "alias-steals-variable", "second-route", "alias-collides-with-name"}
 	if len(bindIdx) > 0 {
 		kinds = append(kinds, "drop-annot", "dup-annot", "rename-annot-value", "retype-struct", "retype-slice", "bad-alias", "annot-no-value")
 	}
@@ -361,6 +361,34 @@ func (g *projGen) perturb(m *pMethod, structNames []string) string {
 		m.Annots[routeIdx].Value += "/{ao}/{ar}"
 		m.Params = append(m.Params, pParam{Name: "ar", Type: "string"}, pParam{Name: "ab", Type: "string"})
 		m.Annots = append(m.Annots, pAnnot{Name: "Path", Value: "ar", Props: map[string]any{"name": "ao"}}, pAnnot{Name: "Path", Value: "ab"})
+	case "second-route":
+		// a second, DIFFERENT @Route (only a warning): the route is reduced, documented and served under the first one,
+		// so that is the template the @Path bindings must match - whichever of the two carries the extra variable
+		if routeIdx < 0 {
+			return "none"
+		}
+		other := pAnnot{Name: "Route", Value: m.Annots[routeIdx].Value + "/{extra}"}
+		if r.Bool() {
+			other.Value = "/plain" + m.Name
+		}
+		if r.Bool() {
+			// the new one first
+			m.Annots = append(m.Annots[:routeIdx], append([]pAnnot{other}, m.Annots[routeIdx:]...)...)
+		} else {
+			m.Annots = append(m.Annots, other)
+		}
+	case "alias-collides-with-name":
+		// `/{cb}`, @Path(ca, {name: "cb"}) and an un-aliased @Path(cb): two parameters go by one URL name
+		if routeIdx < 0 {
+			return "none"
+		}
+		m.Annots[routeIdx].Value += "/{cb}"
+		m.Params = append(m.Params, pParam{Name: "ca", Type: "string"}, pParam{Name: "cb", Type: "string"})
+		first, second := pAnnot{Name: "Path", Value: "ca", Props: map[string]any{"name": "cb"}}, pAnnot{Name: "Path", Value: "cb"}
+		if r.Bool() {
+			first, second = second, first
+		}
+		m.Annots = append(m.Annots, first, second)
 	case "unknown-annotation":
 		m.Annots = append(m.Annots, pAnnot{Name: "Foo", Value: "bar"})
 	case "bad-status":
